@@ -1125,7 +1125,7 @@ class Engine:
             else:
                 self.cover["raise-" + e.cls] = True
                 for kind, label, f, props in c.eval_xposts(ctx, old, bound, e):
-                    self.oblig(kind, label, f, props=props, assume_after=False)
+                    self.prove_item(kind, label, f, props=props, assume_after=False)
 
     # =============================================================================================
     # function calls
